@@ -117,7 +117,8 @@ Definition set_st (d : dcore) (st : dstate) := mkD (d_cnt d) (d_siz d) st (d_in 
 Definition take_bytes (d : dcore) (n : Z) (rest : list Z) (st : dstate) :=
   mkD (d_cnt d) (d_siz d) st rest (d_closed d) (d_consumed d + n) (d_received d).
 Definition add_permits (d : dcore) (c s : Z) := mkD (d_cnt d + c) (d_siz d + s) (d_st d) (d_in d) (d_closed d) (d_consumed d) (d_received d).
-Definition feed (d : dcore) (bs : list Z) := mkD (d_cnt d) (d_siz d) (d_st d) (d_in d ++ bs) (d_closed d) (d_consumed d) (d_received d + Z.of_nat (length bs)).
+(* the transport carries octets: whatever is written arrives reduced to 0..255 *)
+Definition feed (d : dcore) (bs : list Z) := mkD (d_cnt d) (d_siz d) (d_st d) (d_in d ++ map (fun b => b mod 256) bs) (d_closed d) (d_consumed d) (d_received d + Z.of_nat (length bs)).
 Definition close_in (d : dcore) := mkD (d_cnt d) (d_siz d) (d_st d) (d_in d) true (d_consumed d) (d_received d).
 
 (* splits off exactly n elements, None if the list is shorter *)
